@@ -21,7 +21,7 @@ def config(tier):
     q = tier == "quick"
     return {
         "hashseeds": [0, 1, 2] if q else [0, 1, 2, 3, 4, 5, 6, 7],
-        "families": ["G2"],
+        "families": ["G2", "DG4"],
         "mc": [],
         "shards": 8 if q else 16,
         "negctl": 10,
@@ -56,11 +56,45 @@ def rand_cyclic(rng):
         g.add_edges_from([(rng.choice(ins), "dl0"), ("dl1", "dl0"), ("dl0", "dl1"), (rng.choice(ins), "dl1")])
     if nx.is_directed_acyclic_graph(g) or g.number_of_nodes() > 13:
         return None
+    if rng.random() < 0.15:
+        # primary inputs named like nodes of the unrolled copies (c0_<n>, c1_<n>)
+        ins = [n for n in g.nodes if g.nodes[n]["type"] == "input"]
+        nx.relabel_nodes(g, {ins[0]: rng.choice(["c0_en", "c1_d", "c0_" + ins[0]])}, copy=False)
     return proj_graph(g, "cyc")
+
+
+def from_digraph(p, rng):
+    """A 4-node digraph (DG4 family) as a circuit: every node a multi-input gate fed by its predecessors and by its own
+    primary input; sinks (and a seeded choice of others) are outputs."""
+    import networkx as nx
+
+    g = nx.DiGraph()
+    n = p["n"]
+    loads = [0] * n
+    for i in range(n):
+        for j in p["fi"][i]:
+            loads[j - 1] += 1
+    for i in range(n):
+        g.add_node("x%d" % i, type="input", output=False)
+        g.add_node("g%d" % i, type=rng.choice(["and", "nand", "or", "nor", "xor", "xnor"]), output=(loads[i] == 0 or rng.random() < 0.3))
+        g.add_edge("x%d" % i, "g%d" % i)
+    for i in range(n):
+        for j in p["fi"][i]:
+            g.add_edge("g%d" % (j - 1), "g%d" % i)
+    if nx.is_directed_acyclic_graph(g):
+        return None
+    return proj_graph(g, "dg")
 
 
 def cases(ctx):
     rng = ctx.rng("C18")
+    dg4 = ctx.family("DG4")
+    k = 0
+    for p in (rng.sample(dg4, 900) if ctx.quick else dg4):
+        q = from_digraph(p, ctx.rng("C18dg", k))
+        k += 1
+        if q is not None:
+            yield {"op": "acyclic_unroll_cyclic", "c": q, "src": "DG4"}
     g2 = ctx.family("G2")
     for p in (rng.sample(g2, 700) if ctx.quick else g2):
         for q in C01.cyclic_variants(p, rng):
@@ -78,7 +112,7 @@ def cases(ctx):
 def run_case(case, ctx):
     import circuitgraph as cg
 
-    c = build(case["c"])
+    c = build(case["c"], case.get("ord"))
     exc, r = "", None
     try:
         r = cg.tx.acyclic_unroll(c)
